@@ -6,10 +6,20 @@
 (*   EndBlockBroken(s, t, g, ts)  the set of clauses of the statement that *)
 (*       the observed step  s --EndBlock(ts)--> t  breaks (empty = allowed)*)
 (*   StepOK(e, s, t, g)                                                    *)
+(*   BlockBroken(pre, t, g, gov, ts)  the same for a whole block of the    *)
+(*       chain: which values the mint of a block is computed from when the *)
+(*       rest of the block (transactions, the other modules' begin and end *)
+(*       blockers) changes them - see "P: a block of the chain"            *)
 (* As-built machine M: MResult / Init / Next, structured like              *)
 (*   x/coinomics/keeper/{abci,inflation}.go, operation by operation in the *)
 (*   SDK's 18-decimal arithmetic (module Dec18).  The known deviation of   *)
 (*   the code from P is the named member "stale_prevts" of Defects.        *)
+(*   MBlockEnd is the application's EndBlock as app.go wires it: the end   *)
+(*   blockers of gov, staking and coinomics in that order.  The members    *)
+(*   "mint_before_gov" / "mint_before_staking" of Defects are hypothetical *)
+(*   wirings (coinomics earlier in SetOrderEndBlockers); they exist only   *)
+(*   so that the witness configurations can show that P tells the orders   *)
+(*   apart.  Module CoinomicsBlock builds whole blocks on top of this.     *)
 (*                                                                         *)
 (* State record s (everything the statement talks about, all read from the *)
 (* real stores by harness/coinomics.go):                                   *)
@@ -52,7 +62,7 @@ CONSTANTS
     ExtDeltas,   \* supply changes by other modules between blocks
     InitSupply,  \* bank supply before the scenario's set-up
     MaxLen,      \* bound on the length of a behaviour
-    Defects      \* subset of {"stale_prevts"}
+    Defects      \* subset of {"stale_prevts", "mint_before_gov", "mint_before_staking"}
 
 ---------------------------------------------------------------------------
 (* Calendar: the year length follows the calendar year (UTC) of the block *)
@@ -160,8 +170,9 @@ EndBlockBroken(s, t, g, ts) ==
 
 \* the ghost after an event (from the observed pre/post states)
 GhostInit(s) == [lastTs |-> "0", mode |-> "fresh", minted |-> "0", fee0 |-> s.fee]
+\* (for a "block" event s is BlockInputs(..): the state the block's mint is judged on)
 GhostNext(e, s, t, g) ==
-    CASE e.ev = "endblock" ->
+    CASE e.ev \in {"endblock", "block"} ->
            [g EXCEPT !.lastTs = e.args.ts,
                      !.mode   = IF ~s.enabled THEN "fresh" ELSE IF t.enabled THEN "live" ELSE "ambiguous",
                      !.minted = BigAdd(@, Minted(s, t))]
@@ -192,6 +203,61 @@ StepOK(e, s, t, g) == StepBroken(e, s, t, g) = {}
 \* state invariant: the fee collector received exactly what coinomics minted
 Inv_FeeEqMinted(s, g) == BigEq(s.fee, BigAdd(g.fee0, g.minted))
 
+---------------------------------------------------------------------------
+(* P: a block of the chain.                                                               *)
+(* The statement speaks of "each block with coinomics enabled", "bonded" and               *)
+(* "rewardCoefficient" without saying at which instant of the block they are read.  A block *)
+(* is BeginBlock, the transactions, EndBlock, and all three move these values: delegations  *)
+(* move coins into and out of the bonded pool at once; the staking end blocker moves the    *)
+(* whole stake of a validator when it joins or leaves the bonded set (created, out-ranked,  *)
+(* jailed for a double signature or downtime in BeginBlock, unjailed); the gov end blocker  *)
+(* executes parameter proposals whose voting period ended.  app.go runs the coinomics end   *)
+(* blocker after gov's and staking's (SetOrderEndBlockers: crisis, gov, staking, ...,       *)
+(* coinomics, ...), and nothing that runs after it touches these values.  P therefore reads *)
+(* the statement as:                                                                        *)
+(*     the mint of block h is computed from the values block h leaves behind - the bonded   *)
+(*     tokens, RewardCoefficient and EnableCoinomics as they are once the transactions and  *)
+(*     every other module's end blocker of block h have been applied (the only later write  *)
+(*     is coinomics' own switch-off at the cap) -, for the time between the timestamps of   *)
+(*     block h-1 and block h.                                                               *)
+(* So a validator that leaves the bonded set in block h earns no inflation for block h, one *)
+(* that joins does, and a parameter change applies to the block that executes it.           *)
+(*                                                                                          *)
+(* Observed around the application's EndBlock:                                              *)
+(*   pre  state after BeginBlock and the transactions of the block                          *)
+(*   t    state after EndBlock (what the block commits)                                     *)
+(*   gov  the parameter changes <<[key, val], ...>> the gov end blocker executed in this    *)
+(*        block (proposals whose voting period ended now and whose status became PASSED)    *)
+(* bonded and coeff are not written by coinomics, so "the values the block leaves behind"   *)
+(* are t.bonded and t.coeff; EnableCoinomics is written by coinomics itself at the cap, so  *)
+(* its value "as the rest of the block leaves it" is pre.enabled with gov applied.          *)
+
+GovEnabled(b, gov) ==
+    LET F[i \in 0..Len(gov)] ==
+          IF i = 0 THEN b
+          ELSE IF gov[i].key = "enabled" THEN gov[i].val = "true" ELSE F[i - 1]
+    IN F[Len(gov)]
+GovCoeff(c, gov) ==
+    LET F[i \in 0..Len(gov)] ==
+          IF i = 0 THEN c
+          ELSE IF gov[i].key = "coeff" THEN gov[i].val ELSE F[i - 1]
+    IN F[Len(gov)]
+
+\* the state the coinomics clauses of block h are judged on
+BlockInputs(pre, t, gov) ==
+    [pre EXCEPT !.enabled = GovEnabled(pre.enabled, gov), !.coeff = t.coeff, !.bonded = t.bonded]
+
+BlockBroken(pre, t, g, gov, ts) == EndBlockBroken(BlockInputs(pre, t, gov), t, g, ts)
+BlockOK(pre, t, g, gov, ts)     == BlockBroken(pre, t, g, gov, ts) = {}
+
+\* what the rest of the block did to the inputs of the formula (labels of violations only)
+BlockClass(pre, t, gov) ==
+    "eb-bonded=" \o (IF BigGT(t.bonded, pre.bonded) THEN "up" ELSE IF BigLT(t.bonded, pre.bonded) THEN "down" ELSE "same")
+    \o ",gov=" \o (IF \E i \in 1..Len(gov) : gov[i].key = "enabled" THEN
+                       (IF GovEnabled(pre.enabled, gov) THEN "enable" ELSE "disable")
+                   ELSE IF \E i \in 1..Len(gov) : gov[i].key = "coeff" THEN "coeff"
+                   ELSE IF gov # <<>> THEN "other" ELSE "none")
+
 \* labels identifying a violation --------------------------------------------------------
 CapClass(s, ts, g) ==
     LET room == Room(s) IN
@@ -210,7 +276,7 @@ ReactClass(s, t, ts, g) ==
     ELSE IF g.lastTs # "0" /\ Explains(s, t, ts, BigSub(ts, g.lastTs)) THEN "as-if-elapsed-since-previous-block"
     ELSE "other"
 ClassOf(kind, e, s, t, g) ==
-    IF e.ev # "endblock" THEN "-"
+    IF e.ev \notin {"endblock", "block"} THEN "-"
     ELSE IF kind = "first-block-after-activation-minted" THEN ReactClass(s, t, e.args.ts, g)
     ELSE g.mode \o "," \o CapClass(s, e.args.ts, g)
 
@@ -246,6 +312,16 @@ MEndBlock(s, ts) ==
                  (IF "stale_prevts" \in Defects THEN s1 ELSE [s1 EXCEPT !.prevTs = "0"])
             ELSE LET m == DecRoundInt(bm) IN
                  [s1 EXCEPT !.supply = BigAdd(@, m), !.fee = BigAdd(@, m), !.prevTs = ts]
+
+\* The application's EndBlock at block time ts (module manager, order of app.go): the gov end
+\* blocker executes the parameter changes `gov`, the staking end blocker applies the validator
+\* set changes of the block (bonded pool becomes ebBonded), then coinomics mints.
+MGov(s, gov) == [s EXCEPT !.enabled = GovEnabled(s.enabled, gov), !.coeff = GovCoeff(s.coeff, gov)]
+MStaking(s, ebBonded) == [s EXCEPT !.bonded = ebBonded]
+MBlockEnd(pre, gov, ebBonded, ts) ==
+    CASE "mint_before_gov" \in Defects     -> MStaking(MGov(MEndBlock(pre, ts), gov), ebBonded)
+      [] "mint_before_staking" \in Defects -> MStaking(MEndBlock(MGov(pre, gov), ts), ebBonded)
+      [] OTHER                             -> MEndBlock(MStaking(MGov(pre, gov), ebBonded), ts)
 
 MResult(s, ev, args) ==
     [ok |-> TRUE, post |-> IF ev = "endblock" THEN MEndBlock(s, args.ts) ELSE EnvPost(s, ev, args)]
